@@ -379,10 +379,9 @@ def run_check(pid, queries, tier, meta):
         os.makedirs(os.path.dirname(bl_path), exist_ok=True)
         old = baseline.get('named', {})
         cur = {k: v for k, v in named_seen.items()}
-        if tier == 'quick':   # keep thorough-only entries
-            tq = {q.name for q in queries if q.tier != 'quick'}
-            for k, v in old.items():
-                if k.split('|')[0] in tq: cur.setdefault(k, v)
+        ran_now = {r['name'] for r in results}
+        for k, v in old.items():          # keep the entries of queries that were not part of this invocation (other tier, VERIF_ONLY)
+            if k.split('|')[0] not in ran_now: cur.setdefault(k, v)
         json.dump({'named': dict(sorted(cur.items()))}, open(bl_path, 'w'), indent=0)
         baseline = {'named': cur}
     ran = {r['name'] for r in results if r['status'] == 'done'}
